@@ -409,6 +409,17 @@ func (p c02) Run(c *core.Ctx) {
 	c.Count("starts", 1)
 	c.Count("registry_steps", r.Tracer.Steps())
 	problems, exp := evalAgainstModel(r, !transientFaults)
+	if !transientFaults && r.Outcome() == "ok" && len(problems) == 0 {
+		// a cycle may be closed by a lookup a component issues from inside its callbacks (service-locator
+		// style): in a start without faults such a lookup of a registered component is answered, like an
+		// injection point on the cycle would be, with the component (its early reference while it is in creation)
+		for _, name := range core.SortedKeys(r.LookErrs) {
+			if _, registered := nodeNamed(sc, name); registered {
+				problems = append(problems, problem{Kind: "lookup-refused", Msg: fmt.Sprintf("a lookup of the registered component %q from inside a callback was answered with an error in a start without faults: %s", name, core.Short(r.LookErrs[name][0], 200))})
+				break
+			}
+		}
+	}
 	if transientFaults {
 		c.Count("starts_with_swallowed_transient_failures", 1)
 		if r.Outcome() == "ok" && len(problems) == 0 {
